@@ -12,7 +12,7 @@ AUTHX = {"pkg/verifx/authx": ["authx/authx.go"]}
 
 # recorded deviations of the implementation (known/C16.json); the model enables them so that the
 # rest of the matrix stays armed
-DEVS = ["firstAdminMulti"]
+DEVS = ["cardNoPriv", "cardFromDefault", "fromDbDefault", "cqWeak", "firstAdminMulti"]
 KINDS = ["setpw", "drop", "create", "revoke", "grant", "admin", "unadmin"]
 
 
